@@ -146,7 +146,7 @@ func (p *capPlugin) Enqueue(m *aio.Message) bool {
 }
 
 var tagPool = []string{
-	"default", "worker-1", "http://h/x", "https://h:8/y?z=1", "poll://g/i", "poll://g", "poll://g/a/b", "ftp://h/x", "mailto:x", "",
+	"default", "worker-1", "http://h/x", "https://h:8/y?z=1", "poll://g/i", "poll://g", "poll://workers:2/w1", "poll://workers:/w1", "poll://G:80", "poll://u@g/i", "poll://g/a/b", "ftp://h/x", "mailto:x", "",
 	"http://target-name/x", "poll://named/w1", "a b", "{", "null", "1", "true", `"quoted"`, "[1,2]", "{}",
 	`{"type":"poll","data":{"group":"g","id":"i"}}`, `{"type":"http","data":{"url":"http://h/x"}}`, `{"type":"poll"}`,
 	`{"type":"pigeon","data":{}}`, `{"type":"","data":{}}`, `{"type":"poll","data":{"group":"g"},"extra":1}`, `{"data":{"group":"g"}}`,
